@@ -24,6 +24,18 @@ func (a *api) selectW(fd int, timeoutMs int) (int, bool, error) {
 	return n, fds.IsSet(fd), err
 }
 
+func (a *api) pollW(fd int, timeoutMs int) (int, int16, error) {
+	pf := []unix.PollFd{{Fd: int32(fd), Events: unix.POLLOUT}}
+	var n int
+	var err error
+	if a.sim {
+		n, err = shimunix.Poll(pf, timeoutMs)
+	} else {
+		n, err = unix.Poll(pf, timeoutMs)
+	}
+	return n, pf[0].Revents & (unix.POLLOUT | unix.POLLNVAL), err
+}
+
 func (a *api) fcntl(fd, cmd, arg int) (int, error) {
 	if a.sim {
 		return shimunix.FcntlInt(uintptr(fd), cmd, arg)
@@ -50,6 +62,39 @@ func (t *tr) fifo() string {
 }
 
 func init() {
+	scripts["poll/connect"] = func(t *tr) {
+		a := t.a
+		ln := t.tcpListener()
+		sa, _ := a.Getsockname(ln)
+		cl, _ := a.Socket(syscall.AF_INET, syscall.SOCK_STREAM|syscall.SOCK_NONBLOCK, 0)
+		t.own(cl)
+		t.logf("connect: %s", es(a.Connect(cl, sa4(lo, portOf(sa)))))
+		n, ev, err := a.pollW(cl, 2000)
+		t.logf("poll for write: %d out=%v %s", n, ev&unix.POLLOUT != 0, es(err))
+		v, err := a.GetsockoptInt(cl, syscall.SOL_SOCKET, syscall.SO_ERROR)
+		t.logf("SO_ERROR: %d %s", v, es(err))
+		a.Close(ln)
+		c2, _ := a.Socket(syscall.AF_INET, syscall.SOCK_STREAM|syscall.SOCK_NONBLOCK, 0)
+		t.own(c2)
+		t.logf("connect to the closed port: %s", es(a.Connect(c2, sa4(lo, portOf(sa)))))
+		n, ev, err = a.pollW(c2, 2000)
+		t.logf("poll for write: %d out=%v %s", n, ev&unix.POLLOUT != 0, es(err))
+		v, err = a.GetsockoptInt(c2, syscall.SOL_SOCKET, syscall.SO_ERROR)
+		t.logf("SO_ERROR: %s %s", errnoName(syscall.Errno(v)), es(err))
+		chunk := bytes.Repeat([]byte("z"), 65536)
+		for i := 0; i < 4000; i++ {
+			if _, err := a.Write(cl, chunk); err != nil {
+				break
+			}
+			a.settle()
+		}
+		n, ev, err = a.pollW(cl, 20)
+		t.logf("send buffer full, poll for write, 20ms: %d out=%v %s", n, ev&unix.POLLOUT != 0, es(err))
+		x, _ := a.Socket(syscall.AF_INET, syscall.SOCK_STREAM, 0)
+		a.Close(x)
+		n, ev, err = a.pollW(x, 0)
+		t.logf("closed number: %d nval=%v %s", n, ev&unix.POLLNVAL != 0, es(err))
+	}
 	scripts["select/connect-established"] = func(t *tr) {
 		a := t.a
 		ln := t.tcpListener()
